@@ -242,7 +242,14 @@ func (c *Core) checkBoth(s *Sim) {
 	}
 	when := "stop-during-run"
 	if c.Cfg.StopMode == 2 {
-		when = "stop-before-run"
+		when = "stop-at-start"
+	}
+	// connection goroutines are the actors spawned directly by Run
+	spawned := 0
+	for a := range s.SeenActors {
+		if strings.HasPrefix(a, "run>") && strings.Count(a, ">") == 1 {
+			spawned++
+		}
 	}
 	if s.W.FindListener(c.Cfg.Port) != nil {
 		s.Violate("C12", "port-free", when, "Stop and Run have returned but the listener is still bound")
@@ -265,8 +272,11 @@ func (c *Core) checkBoth(s *Sim) {
 			}
 		}
 	}
+	if spawned < accepted {
+		when += " connection-accepted-but-not-yet-started"
+	}
 	if closed < accepted {
-		s.Violate("C12", "closed", when, fmt.Sprintf("%d of %d accepted connections not yet closed by the server", accepted-closed, accepted))
+		s.Violate("C12", "closed", when, fmt.Sprintf("%d of %d accepted connections not yet closed by the server (%d connection goroutines started)", accepted-closed, accepted, spawned))
 	}
 	if c.Cfg.OnClose > 0 {
 		exits := 0
@@ -476,7 +486,7 @@ func (c *Core) Finish(s *Sim) {
 					break
 				}
 			}
-			if ub != nil && c.cleanBefore(ub) && cl.ended != "reset" {
+			if ub != nil && c.cleanBefore(ub) && cl.ended != "reset" && cfg.ReadTimeout == 0 && cfg.WriteTimeout == 0 && c.stopCalls == 0 {
 				s.Probe("C10-unbind-delivered")
 				if ub.Pos < len(cl.reqs) {
 					s.Probe("C10-requests-behind-unbind")
@@ -613,7 +623,7 @@ func (c *Core) finishClient(s *Sim, cl *Client) {
 		}
 		op := q.Rec.Op
 		// delivery (C01.delivered / C03.once): the request must have reached a handler
-		servable := c.stopCalls == 0 && cl.ended != "reset" && !cl.ep.IsReset() && cl.ep.Peer.InFlightIn() == 0
+		servable := c.stopCalls == 0 && cl.ended != "reset" && !cl.ep.IsReset() && cl.ep.Peer.InFlightIn() == 0 && cfg.ReadTimeout == 0 && cfg.WriteTimeout == 0
 		want := c.modelRoute(q.Rec)
 		if op == "unbind" {
 			want = c.unbindRoute()
